@@ -64,9 +64,11 @@ structure Path where
 
 abbrev Store := List (Path × Bytes)
 
+/-- CloseWithError: the name disappears from the store (local: os.Remove; MemFS: never published) -/
+def Store.remove (s : Store) (p : Path) : Store := s.filter (fun e => !(e.1 == p))
+
 /-- Close of a writer: the file appears under its name, replacing an older one. -/
-def Store.put (s : Store) (p : Path) (c : Bytes) : Store :=
-  s.filter (fun e => !(e.1 == p)) ++ [(p, c)]
+def Store.put (s : Store) (p : Path) (c : Bytes) : Store := s.remove p ++ [(p, c)]
 
 structure DB where
   uploads : List UKey := []
@@ -287,6 +289,12 @@ def failsAt (f : Option Fault) (opc : Nat) : Bool :=
   | none => false
   | some f => if f.sticky then f.k ≤ opc else f.k == opc
 
+/-- does a failing Close leave the data in the store -/
+def leavesOf (f : Option Fault) : Bool :=
+  match f with
+  | some ft => ft.leaves
+  | none => false
+
 /-- state of processUpload between statements -/
 structure Run where
   uploads : List UKey
@@ -346,8 +354,9 @@ structure FileIn where
   cut : Bool
   chunks : List Nat
 
+/-- an error return of indexFile with the writer open: the deferred func calls CloseWithError -/
 def failFile (r : Run) (t : Tx) (p : Path) (ops : List Op) (opc : Nat) (e : Err) : Run × Tx × Option Err :=
-  ({ r with opc := opc, trace := r.trace ++ ops ++ [Op.cwe], inprog := some p }, t, some e)
+  ({ r with opc := opc, trace := r.trace ++ ops ++ [Op.cwe], inprog := some p, fs := r.fs.remove p }, t, some e)
 
 /-- `indexFile` -/
 def indexFile (env : Env) (f : Option Fault) (r : Run) (t : Tx) (x : FileIn) : Run × Tx × Option Err :=
@@ -358,17 +367,14 @@ def indexFile (env : Env) (f : Option Fault) (r : Run) (t : Tx) (x : FileIn) : R
     ({ r with opc := r.opc + 1, trace := r.trace ++ [Op.nw false] }, t, some Err.fs)
   else
   let opc := r.opc + 1
-  -- header lines, keys sorted; an error returns
-  let h := doWrites f ((sortLabels md).map headerLine) opc
+  -- header lines, keys sorted, then the blank separator line; an error returns
+  let h := doWrites f ((sortLabels md).map headerLine ++ [[10]]) opc
   if h.1 then failFile r t p (Op.nw true :: h.2.2.2) h.2.1 Err.fs else
-  -- fmt.Fprintf(fw, "\n") — the result is not checked
-  let blankFails := failsAt f h.2.1
-  let buf0 := if blankFails then h.2.2.1 else h.2.2.1 ++ [10]
-  let ops0 := Op.nw true :: h.2.2.2 ++ [Op.wr 1 (!blankFails)]
+  let ops0 := Op.nw true :: h.2.2.2
   -- io.TeeReader(p, fw): one Write per non-empty read
-  let b := doWrites f (splitChunks x.content x.chunks) (h.2.1 + 1)
+  let b := doWrites f (splitChunks x.content x.chunks) h.2.1
   if b.1 then failFile r t p (ops0 ++ b.2.2.2) b.2.1 Err.fs else
-  let buf := buf0 ++ b.2.2.1
+  let buf := h.2.2.1 ++ b.2.2.1
   let ops := ops0 ++ b.2.2.2
   let results := readResults md (splitLines x.content) md
   match t.insertRecords results with
@@ -377,10 +383,9 @@ def indexFile (env : Env) (f : Option Fault) (r : Run) (t : Tx) (x : FileIn) : R
     if x.cut then failFile r t' p ops b.2.1 Err.body
     else if results.isEmpty then failFile r t' p ops b.2.1 Err.nobench
     else if failsAt f b.2.1 then
-      -- err = fw.Close() failed; nothing else is done to the file
-      let leaves := match f with | some ft => ft.leaves | none => false
-      ({ r with opc := b.2.1 + 1, trace := r.trace ++ ops ++ [Op.cl false], inprog := some p,
-                fs := if leaves then r.fs.put p buf else r.fs }, t', some Err.fs)
+      -- err = fw.Close() failed (the data may have reached the store); then fw.CloseWithError(err)
+      ({ r with opc := b.2.1 + 1, trace := r.trace ++ ops ++ [Op.cl false, Op.cwe], inprog := some p,
+                fs := (if leavesOf f then r.fs.put p buf else r.fs).remove p }, t', some Err.fs)
     else
       ({ r with opc := b.2.1 + 1, trace := r.trace ++ ops ++ [Op.cl true], fs := r.fs.put p buf }, t', none)
 
